@@ -336,6 +336,8 @@ def gen_flag_pairs(rng, n_pairs):
         doc["components"].append({"stage": 0, "name": "solo", "references": [],
                                   "command": {"executable": "echo", "arguments": "%(x)s %(g)s", "environment": "none"},
                                   "variables": {"x": "X", "g": "own-g", "s": "local"}})
+        # an inherited variable that no component defines or mentions: with / without it the answers differ
+        doc["variables"]["default"]["global"]["extra"] = "E"
         i, n = (0, "solo") if (fa, fb) in must else rng.choice([(0, "solo"), (0, "solo"), (0, "c0"), (1, "c1")])
         P = rng.choice(PLATFORMS)
         upd = rng.choice([{"op": "setGlobalVar", "var": "g", "value": "G2"},
@@ -481,14 +483,15 @@ def gen_triples(rng, repeat):
 # upper case), names made of / containing regular-expression metacharacters, blanks, colons, pieces of the label
 # syntax itself (`stage0`, `component`, `x:stage0:c0`), non-ASCII, one-character names, and - as a second platform of
 # the same description - names that are a prefix / suffix / doubling / case variant of the first.
-# (not generated: the empty name - `platform or active` makes it an alias of the active platform - and names with a
-# line break, see ctx.assumptions)
+# (not generated: the empty name - `platform or active` makes it an alias of the active platform.  Names with a line
+# break ARE generated: the invalidation pattern did not match them before /repo 'fix: ... line break')
 REAL_PLATFORMS = ["openshift-kubeflux", "lsf.cluster", "ibm-cloud", "in-entrypoint", "hpc_lsf-2", "docker/local",
                   "OpenShift", "sandbox.v2-beta", "openshift", "paragon", "kubernetes@eu-de", "x86_64-linux"]
 ODD_PLATFORMS = ["a+b", "p*", "(p)", "p|q", "p$", "^p", "[p]", "p{2}", "p\\d", "p?", ".*", "\\w+", "p q", " p", "p ",
                  "p\tq", "p:q", ":stage0:c0", "x:stage0:c0", "stage0", "stage0:c0", "component", "component:p", ":",
                  "-", ".", "0", "_", "plät", "平台", "%(g)s", "p#q", "default-x", "x-default", "default.",
-                 "Default", "p-", "-p", ".p", "p.", "p_q", "p,q", "p=q", "p'q", "p\"q", "~p", "p!", "p&q", "p;q", "p<q>"]
+                 "Default", "p-", "-p", ".p", "p.", "p_q", "p,q", "p=q", "p'q", "p\"q", "~p", "p!", "p&q", "p;q", "p<q>", "a\nb", "p\n", "\np",
+                 "p\r\nq"]
 BOUNDARY_COMPONENTS = [(0, "c0"), (1, "c0"), (10, "c0"), (11, "c0"), (1, "c00"), (0, "c-0"), (1, "c 0"), (0, "stage0"),
                        (0, "c0:stage1:c0"), (0, "0"), (1, "C0"), (0, "-c0"), (1, "c0-"), (0, "c_0"), (0, "c.0"),
                        (1, "c"), (0, "a+b"), (1, "c$"), (0, "ç"), (1, "stage1"), (2, "c0"), (0, "c0:"), (1, ":c0")]
@@ -1197,44 +1200,8 @@ def update_alias_registered():
     return _REGISTERED[0]
 
 
-LINEBREAK_SLUGS = ("query-differs-from-from-scratch-resolution", "query-differs-from-replaying-only-the-updates")
-
-
-def classify_linebreak_platform(what, case, detail):
-    """stale answer of a query on a platform whose NAME contains a line break (`.` of the invalidation pattern
-    `component:.*:stage<i>:<name>` does not match one); repair: fixes/C08-cache-pattern-linebreak.diff"""
-    return what in LINEBREAK_SLUGS and "\n" in str(detail.get("query", {}).get("platform", ""))
-
-
-def known_registered(classifier):
-    from harness.common import load_known
-    try:
-        return any(e.get("classifier") == classifier for e in load_known("C08"))
-    except Exception:
-        return False
-
-
-def linebreak_probe(ctx):
-    """one history on a platform whose name contains a line break (outside the model: oracle only).  The unchanged
-    tree answers stale there; until the finding is registered in known_findings.json it is only tagged"""
-    case = {"kind": "history", "meta": False, "doc": base_doc(["c0", "c1"]), "linebreak": True,
-            "ops": [{"op": "sweep"}, {"op": "setVar", "stage": 0, "name": "c0", "var": "x", "value": "edited"}, {"op": "sweep"}]}
-    case = rename_platforms(ctx.rng, case, "a\nb")
-    failures = run_history(case)[3]
-    ctx.case(case, nontrivial=True, tags=["platform-name:line-break"])
-    mine = [f for f in failures if classify_linebreak_platform(f[0], case, f[1])]
-    for what, detail in failures:
-        if (what, detail) not in mine or known_registered("c08_platform_name_with_line_break"):
-            ctx.fail(what, case, detail)
-    if mine and not known_registered("c08_platform_name_with_line_break"):
-        ctx.tag("finding:stale-entry-for-platform-name-with-line-break(not registered)")
-    elif not mine:
-        ctx.tag("platform-name-with-line-break:fresh")
-
-
 CLASSIFIERS = {"c08_component_name_with_regex_metacharacters": classify_regex_name,
-               "c08_update_component_aliases_template": classify_update_alias,
-               "c08_platform_name_with_line_break": classify_linebreak_platform}
+               "c08_update_component_aliases_template": classify_update_alias}
 
 
 def name_tags(case):
@@ -1322,8 +1289,6 @@ def check_histories(ctx, cases):
         reqs.append({"op": "run", "desc": desc, "fuel": FUEL, "ops": model_ops(flat)})
     mouts = ctx.model(reqs)
     for case, (flat, answers, failures), mo in zip(cases, runs, mouts or [None] * len(cases)):
-        if case.get("linebreak"):
-            mo = None               # a line break inside a platform name is outside the model
         if case.get("kind") == "ghistory":
             check_ghistory(ctx, case, flat, answers, failures, mo)
             continue
@@ -1412,8 +1377,8 @@ def run(ctx):
                 "boundaries of one another (stages 0/1/2/10/11, c / c0 / c00 / c0- / c-0 / c0:stage1:c0 / stage0 ...): ask "
                 "everything on every platform - update ONE component (1 of 15 ways quick, 5 thorough) - ask everything.")
     ctx.assumptions = ["mutators are called on the existing platforms only",
-                       "platform names are non-empty and contain no line break (the empty name is an alias of the active "
-                       "platform; `.` of the invalidation pattern does not match a line break)",
+                       "platform names are non-empty (the empty name is an alias of the active platform); names with line "
+                       "breaks are in the pools",
                        "update_component is given a body with the same (stage, name)",
                        "values are strings / integers / booleans / floats / None / short lists",
                        "the caller does not mutate a VALUE (list) after handing it to a setter, nor the dictionary it "
@@ -1465,7 +1430,6 @@ def run(ctx):
         {"op": "read", "what": "instance", "platform": "p", "fill_in_all": False, "prim": True, "inject": False},
         {"op": "sweep"}]})
     first_runs = check_histories(ctx, cases)
-    linebreak_probe(ctx)
     again_stream(ctx, first_runs, 25 if quick else 150, 4 if quick else 20)
 
 
